@@ -1373,19 +1373,49 @@ def _known_loader(ctx):
     return load
 
 
+def probe_environment(work):
+    """The check runs real processes as uid 0 and as uid 1000 under strace with fault injection. Anything missing here
+    is a tooling condition (exit 2 with a clear message), never a verdict."""
+    if os.geteuid() != 0:
+        raise vlib.ToolError("environment: the X02 check must run as root (it runs regctl as uid 0 and as uid 1000 and sets "
+                             "owners of the scenario files); euid is %d" % os.geteuid())
+    if shutil.which("strace") is None:
+        raise vlib.ToolError("environment: strace is not installed; the system calls of the real code cannot be recorded")
+    try:
+        p = subprocess.run(["strace", "-f", "-o", "/dev/null", "-e", "trace=openat", "-e", "inject=fchownat:error=EPERM:when=1",
+                            "true"], capture_output=True, text=True, timeout=60)
+    except (OSError, subprocess.TimeoutExpired) as e:
+        raise vlib.ToolError("environment: strace cannot be run: %s" % e)
+    if p.returncode != 0:
+        raise vlib.ToolError("environment: strace / ptrace (with fault injection) does not work here: " + p.stderr.strip()[-300:])
+    d = os.path.join(work, "envprobe")
+    try:
+        os.makedirs(d, exist_ok=True)
+        os.chown(d, 1000, 1000)
+    except OSError as e:
+        raise vlib.ToolError("environment: cannot chown a scratch directory to uid 1000 (%s): no CAP_CHOWN?" % e)
+    try:
+        p = subprocess.run(["strace", "-f", "-o", os.path.join(d, "st.txt"), "-e", "trace=openat", "id", "-u"],
+                           capture_output=True, text=True, timeout=60, cwd=d, user=1000, group=1000, extra_groups=[])
+    except (OSError, subprocess.SubprocessError, ValueError) as e:
+        raise vlib.ToolError("environment: cannot start a process as uid 1000 (setuid/setgid/setgroups refused): %s" % e)
+    if p.returncode != 0 or p.stdout.strip() != "1000":
+        raise vlib.ToolError("environment: a process run as uid 1000 under strace failed (rc=%d, uid=%r): %s - ptrace for "
+                             "unprivileged users (yama ptrace_scope / seccomp) or setuid is not available"
+                             % (p.returncode, p.stdout.strip(), p.stderr.strip()[-300:]))
+    shutil.rmtree(d, ignore_errors=True)
+
+
 def prepare(ctx):
     os.chmod(ctx.scratch, 0o755)          # the scenarios also run as an unprivileged uid
-    ctx.build("x02drv")
-    ctx.build_repo_cmd("./cmd/regctl", "regctl")
-    os.chmod(ctx.bin, 0o755)
     work = ctx.path("x02", "work", "x")
     work = os.path.dirname(work)
     os.chmod(os.path.dirname(work), 0o755)
     os.chmod(work, 0o755)
-    if os.geteuid() != 0:
-        raise vlib.ToolError("the X02 check runs its scenarios under several uids and needs root")
-    if _sh(["strace", "-o", "/dev/null", "true"]).returncode != 0:
-        raise vlib.ToolError("strace / ptrace is not available here")
+    probe_environment(work)
+    ctx.build("x02drv")
+    ctx.build_repo_cmd("./cmd/regctl", "regctl")
+    os.chmod(ctx.bin, 0o755)
     return {"drv": os.path.join(ctx.bin, "x02drv"), "regctl": os.path.join(ctx.bin, "regctl"), "work": work}
 
 
@@ -1541,10 +1571,10 @@ def run(ctx):
                          "every command kind x fault point x start state x root/user (no crash)"))
             jobs.append(("qcrash", "ConfFileMC", "X02_mc_qcrash.cfg", False,
                          "unfaulted commands, command pairs, racing saves; kill -9 anywhere + re-run"))
-        jobs.append(("owner", "ConfFileMC", "X02_mc_owner.cfg", True,
-                     "root saves a file whose owner or group (not both) is root (counterexample expected: finding X02-1)"))
-        jobs.append(("ownerfix", "ConfFileMC", "X02_mc_ownerfix.cfg", False,
-                     "the same with the repaired chown guard (Variant ownerfix): holds"))
+        jobs.append(("owner", "ConfFileMC", "X02_mc_owner.cfg", False,
+                     "root saves a file whose owner or group (not both) is root: holds (the code since c56fb15)"))
+        jobs.append(("asfound", "ConfFileMC", "X02_mc_asfound_owner.cfg", True,
+                     "as-found switch: chown only if uid > 0 && gid > 0 (counterexample expected: finding X02-1)"))
         if thorough:
             jobs.append(("race", "ConfFileMC", "X02_mc_race.cfg", False,
                          "racing saves: 2 chunks each, racing commands, a faulted racer; one racer may be killed"))
@@ -1564,6 +1594,9 @@ def run(ctx):
             res[key] = futs[key].result()
             if exp and key.startswith("mut-") and not res[key]["violated"]:
                 raise vlib.ToolError("the design-level mutant %s satisfies every invariant: the invariants are too weak" % key)
+            if key == "asfound" and not res[key]["violated"]:
+                raise vlib.ToolError("ConfFile with Variant=asfound satisfies S3-owner-kept on the root-group owner classes: "
+                                     "the as-found switch does not contain the defect it was kept to expose")
         return res
 
     # 2. scenarios from TLC
@@ -1667,7 +1700,7 @@ def run(ctx):
                                   "cmd": "tools/check X02 --replay <this file>"}):
             pass
     mcres = collect_mc()
-    own = mcres.get("owner")
+    own = mcres.get("asfound")
     states = sum(r["distinct"] for r in mcres.values())
     trans = sum(r["generated"] for r in mcres.values())
     lap("TLC on the design spec (%d runs, in the background)" % len(mcres))
@@ -1699,13 +1732,11 @@ def run(ctx):
     if ctx.replay:
         return "model_checking", cov, []
 
-    # 6. the counterexample of the owner config must be what the real code shows (never a verdict by itself)
+    # 6. the chown guard: the baseline of (D) is the repaired code; a tree that shows the owner defect on real traces
+    #    (e.g. the fix reverted) is explained by the as-found switch (never a verdict by itself)
     seen_owner = any("S3-owner-kept" in s and "owner=rootgrp" in s for s in sigs)
-    cov["design_counterexamples"] = {"owner_guard": {"tlc": own["violated"], "reproduced_on_real_code": seen_owner}}
-    if bool(own["violated"]) != seen_owner:
-        vlib.log("X02: design spec and code disagree on the chown guard (TLC: %s, real code: %s) - model drift, not a verdict"
-                 % (own["violated"], seen_owner))
-        cov.setdefault("model_drift", []).append("owner guard")
+    cov["design_counterexamples"] = {"owner_guard_as_found": {"tlc": own["violated"], "reproduced_on_real_code": seen_owner}}
+    cov["owner_guard_observed"] = "asfound" if seen_owner else "code"
 
     # 7. binding of (D): the recorded call sequences are behaviours of ConfFile
     dts = [dtrace_of(sc) for sc in seqs]
@@ -1721,9 +1752,10 @@ def run(ctx):
         cov["drift_detail"] = det
         vlib.log("X02: %d recorded call sequences are not behaviours of ConfFile (drift, not a violation): %s"
                  % (len(drift), json.dumps(det)[:1500]))
-        if own is not None and not seen_owner and own["violated"]:
-            done2, _ = validate_dtraces(ctx, [d for d in dts if d["id"] in drift], "X02_dtrace_ownerfix.cfg", "dtrace-ownerfix")
-            cov["drift_explained_by_ownerfix_model"] = len(done2)
+        if seen_owner:
+            # this tree skips the chown for root-owned ids: is its drift from the baseline what the as-found switch describes?
+            done2, _ = validate_dtraces(ctx, [d for d in dts if d["id"] in drift], "X02_dtrace_asfound.cfg", "dtrace-asfound")
+            cov["drift_explained_by_as_found_model"] = len(done2)
     lap("TLC validation of %d call sequences against (D)" % len(dts))
 
     # 8. really kill the process at sampled calls
@@ -1756,5 +1788,6 @@ def run(ctx):
         "racing saves on the real code are interleaved at the gates of the source reader (before the save, before every read); "
         "racing regctl commands are ordered by holding one at its stdin between load and save",
         "a root process whose chown is made to fail is not held to keep the owner (the code ignores that error on purpose)",
+        "baseline of (D) = the code since /repo c56fb15 (chown whenever the owner is known); the as-found guard is a switch",
     ]
     return "model_checking", cov, assumptions
